@@ -55,7 +55,9 @@ CATALOG = {
     "fbRR":  fb(fr="R1", h=[cR("R1"), cE("E1")]),        # its own output is a result it handles: verdict failure
     "fbZ":   fb(h=[cE("E1"), cR("R0")]),
     "fbOR":  fb(h=[cR("R1")]),                          # only a handled result: every error is still a failure (default rule)                 # handled zero result next to a narrowed error condition
-    "cbX":   cb("cbX", BR1, h=[cE("ErrExceeded")]),       # a breaker that only counts exhausted retries
+    "cbX":   cb("cbX", BR1, h=[cE("ErrExceeded")]),
+    "cbHR":  cb("cbHR", BR2, h=[cR("R1")]),               # a breaker that counts result R1 as a failure
+    "rpHL":  retry(1, h=[cR("R1")], rlf=True),           # retries on R1 and returns the last R1 when exhausted       # a breaker that only counts exhausted retries
     "cK":    cache("cK"),
     "cIf":   cache("cIf", ifc=[cIf("p1")]),
     "cIfE":  cache("cIfE", ifc=[cE("E1")]),              # negative caching: stores the (zero) result of E1 failures
@@ -101,13 +103,13 @@ ALL_INVS = ["C16_Completion", "C16_Retry", "C02_Bound", "C02_OnlyAfterFailure", 
 
 
 def run_family(ctx, binary, name, stacks, outs=OUTS4, maxcalls=3, execs=2, ctxkeys=("none",), invs=ALL_INVS, entries=1,
-               unit_ns=1_000_000, workers=8, simulate=None, depth=None):
+               unit_ns=1_000_000, workers=8, simulate=None, depth=None, mode="seq_replay"):
     tla, cfg = mc_text(stacks, outs, maxcalls, execs, ctxkeys, invs)
     d = vlib.stage_specs(ctx, "seq_" + name, tla, cfg)
     kw = dict(timeout=3000, workers=workers, heap="12g")
     if simulate:
         kw.update(simulate=simulate, depth=depth or 60, workers=1)
-    res, recs, summ = pipeline.tlc_to_harness(ctx, d, binary, "seq_replay", dict(unit_ns=unit_ns, entries=entries), kw, prefix='"{')
+    res, recs, summ = pipeline.tlc_to_harness(ctx, d, binary, mode, dict(unit_ns=unit_ns, entries=entries), kw, prefix='"{')
     if res["viol"]:
         raise vlib.Inconclusive("specs/Failsafe.tla violates one of its own invariants in family %s (model out of date?):\n%s" % (name, "\n".join(res["tail"][-50:])))
     ctx.traces += summ["n"] * entries
